@@ -45,10 +45,48 @@ type Obj struct {
 	Content map[string]any  // JSON content incl. metadata; never contains managedFields
 	Applied map[string]bool // leaf paths last applied by field manager package-operator
 	Inc     int             // incarnation number of this key (1 = first object ever created under the key)
+	// Legacy: the tracked field managers (LegacyManagers) that own fields of the object through a
+	// non-apply write (managedFields entries with operation Update), sorted. The slice is never
+	// modified in place.
+	Legacy []string
+}
+
+// LegacyManagers are the field managers whose client-side (non-apply) writes the model records
+// in metadata.managedFields: the names package-operator has used over time. Entries of other
+// managers (kubectl, workload controllers) exist on a real cluster too; nothing here reads them.
+var LegacyManagers = map[string]bool{"package-operator": true, "package-operator-manager": true, "remote-phase-manger": true}
+
+// ManagedFields renders the metadata.managedFields the API server would report for o: one Update
+// entry per legacy manager and the Apply entry of field manager package-operator if it applied
+// anything. The field sets are placeholders (valid FieldsV1, not the real ownership).
+func (o *Obj) ManagedFields() []any {
+	var out []any
+	av, _ := o.Content["apiVersion"].(string)
+	entry := func(manager, op string, fields map[string]any) map[string]any {
+		return map[string]any{"manager": manager, "operation": op, "apiVersion": av, "time": "2026-01-01T00:00:00Z", "fieldsType": "FieldsV1", "fieldsV1": fields}
+	}
+	if len(o.Applied) > 0 {
+		out = append(out, entry("package-operator", "Apply", map[string]any{"f:spec": map[string]any{}}))
+	}
+	for _, m := range o.Legacy {
+		out = append(out, entry(m, "Update", map[string]any{"f:metadata": map[string]any{"f:ownerReferences": map[string]any{}}}))
+	}
+	return out
+}
+
+func (o *Obj) withLegacy(m string) []string {
+	for _, e := range o.Legacy {
+		if e == m {
+			return o.Legacy
+		}
+	}
+	n := append(append([]string{}, o.Legacy...), m)
+	sort.Strings(n)
+	return n
 }
 
 func (o *Obj) clone() *Obj {
-	n := &Obj{Content: runtime.DeepCopyJSON(o.Content), Inc: o.Inc}
+	n := &Obj{Content: runtime.DeepCopyJSON(o.Content), Inc: o.Inc, Legacy: o.Legacy}
 	if o.Applied != nil {
 		n.Applied = make(map[string]bool, len(o.Applied))
 		for k := range o.Applied {
